@@ -207,6 +207,8 @@ LEVEL_TEXT['C16'] += ' Added (unit assignone): one assignment expands its value 
 TECH['C16'] += ' + perform_assignment (ghost log of the variable requests)'
 LEVEL_TEXT['C13'] += ' Added (unit waitloop): the loop of the wait built-in looks at the job table before it waits and alternates strictly afterwards, answering with the first conclusive look.'
 TECH['C13'] += ' + wait_while_running'
+LEVEL_TEXT['C09'] += ' Added (unit gettty): the descriptor the shell keeps on its terminal is opened with close-on-exec, moved to the internal range at once, remembered only as the move returned it and opened at most once.'
+TECH['C09'] += ' + Env::get_tty (ghost log of open / move_fd_internal calls)'
 
 def main():
     checks = []
